@@ -109,6 +109,9 @@ ParseDefs == <<
     Message("M5", <<F("big", B("int64"), "65536"), F("huge", B("bool"), Big63), F("zero", B("byte"), "0")>>, FALSE),
     Message("M6", [i \in 1..15 |-> F("f" \o ToString(i), B(AllBase[i]), ToString(i))], TRUE),
     Message("M7", <<F("a", L(TAny), "1"), F("b", L(TMsg), "2"), F("c", L(B("string")), "3"), F("d", L(B("bin128")), "4")>>, FALSE),
+    \* qualified references whose last part spells a built-in type name are references all the same
+    Message("M8", <<F("q1", Imp("pkg", "string"), "1"), F("q2", L(Imp("pkg", "bin128")), "2"), F("q3", Imp("y", "int64"), "3"),
+                    F("q4", Imp("pkg", "bytes"), "4"), F("q5", L(Imp("pkg", "bool")), "5")>>, FALSE),
     Enum("E1", <<EV("UNDEFINED", "0"), EV("ONE", "1"), EV("service", "255"), EV("any", "3")>>),
     Enum("E2", <<>>),
     Enum("E3", <<EV("MAX", "2147483647"), EV("MORE", "2147483648"), EV("MOST", Big63)>>),
